@@ -22,6 +22,15 @@ for m in muts:
         src = src.replace(m["old"], m["new"], m.get("count", 1))
         open(path, "w").write(src)
         env = dict(os.environ, DREYE_REPO=d, VERIF_NO_EVIDENCE="1")
+        if "--baseline-only" in sys.argv:
+            # realism check of the mutant itself: the 82 baseline tests must still pass with it
+            shutil.copytree("/repo/tests", os.path.join(d, "tests"))
+            for extra in ("setup.py", "README.md"):
+                if os.path.exists(os.path.join("/repo", extra)):
+                    shutil.copy(os.path.join("/repo", extra), d)
+            b = subprocess.run(["/venv/bin/python", os.path.join(VERIF, "tools", "baseline.py")], env=dict(os.environ, DREYE_REPO=d, PYTHONPATH=d), capture_output=True, text=True)
+            res.append((m["name"], "baseline-ok" if b.returncode == 0 else "BASELINE-BROKEN", 0.0, b.stdout.strip().splitlines()[:3]))
+            continue
         t0 = time.time()
         args = [os.path.join(VERIF, "check"), pid, "--tier", "quick"]
         if m.get("only"):
@@ -35,5 +44,5 @@ for m in muts:
         shutil.rmtree(os.path.join(VERIF, "replays", "found", pid), ignore_errors=True)
 for r in res:
     print(f"{pid} {r[0]:40s} {r[1]:14s} {r[2]:6.1f}s  {r[3] if len(r) > 3 else ''}"[:400])
-bad = [r for r in res if r[1] != "caught"]
+bad = [r for r in res if r[1] not in ("caught", "baseline-ok")]
 sys.exit(1 if bad else 0)
